@@ -108,14 +108,19 @@ func (r *Decoder) Next() bool {
 
 	TRIPLE_START:
 
-		subject, subjectRange, err := r.captureSubject()
-		if err != nil {
+		// only an end of input before the first rune of a statement is a clean end
+		if err := r.skipToStatement(); err != nil {
 			if errors.Is(err, io.EOF) {
 				r.currentTriple = rdf.Triple{}
 
 				return nil
 			}
 
+			return grammar.R_ntriplesDoc.Err(r.newOffsetError(err, cursorio.DecodedRunes{}, cursorio.DecodedRunes{}))
+		}
+
+		subject, subjectRange, err := r.captureSubject()
+		if err != nil {
 			return grammar.R_triple.Err(err)
 		}
 
